@@ -982,3 +982,5 @@ CLAUSES = [
 for _c in CLAUSES:
     if not _c.name.endswith(".fos"):
         _c.layout_twin = True
+    if _c.name.split(".")[1] in ("definition", "hs_definition", "extremes", "operators", "near_identical"):
+        _c.repeat_twin = True  # repeated calls agree; scribbling over a returned array must not affect later calls (engine.call)
